@@ -7,6 +7,7 @@ exit 1  VIOLATION property=<id> replay=<path>   (a violation not listed in
 exit 2  harness error / vacuity guard / timeout (never reported as a pass)
 """
 import argparse
+import copy
 import faulthandler
 import hashlib
 import importlib
@@ -248,6 +249,20 @@ def work(job):
                 det[0] += 1
                 if execu.digest(H2) != execu.digest(H):
                     det[1] += 1
+                    # same scenario, same process, another history: the
+                    # library kept state from an earlier execution.  Judge
+                    # the repetition with the property's own oracle: such a
+                    # violation replays as "execute twice, judge the second"
+                    try:
+                        _, vs2, _ = run_scenario(spec, copy.deepcopy(scn))
+                        for v in vs2:
+                            viols.append({'seed': seed, 'profile': profile,
+                                          'signature': v.sig,
+                                          'detail': v.detail,
+                                          'size': len(json.dumps(scn)),
+                                          'cfg': cfg, 'repeat': 2})
+                    except Exception:      # noqa
+                        pass
         except Exception:      # noqa   harness error, never a verdict
             errors.append({'seed': seed, 'profile': profile,
                            'trace': traceback.format_exc()[-1500:]})
@@ -264,6 +279,25 @@ def write_replay(prop, spec, viol, cfg):
     from . import gen, shrink
     scn = gen.gen(viol['seed'], viol['profile'], cfg)
     sig = viol['signature']
+    if viol.get('repeat'):
+        # not minimised: every candidate execution would change the state of
+        # this process; the fresh-interpreter verification decides
+        os.makedirs(os.path.join(OUT, 'replays', prop), exist_ok=True)
+        h = hashlib.sha1(sig.encode()).hexdigest()[:8]
+        path = os.path.join(OUT, 'replays', prop,
+                            f"{viol['seed']}_{h}_x{viol['repeat']}.json")
+        with open(path, 'w') as f:
+            json.dump({'property': prop, 'signature': sig,
+                       'seed': viol['seed'], 'profile': viol['profile'],
+                       'oracle': spec['oracle'], 'violation': viol['detail'],
+                       'repeat': viol['repeat'],
+                       'note': 'execute the scenario this many times in one '
+                               'process and judge the last execution',
+                       'shrink': {'steps': [], 'executions': 0},
+                       'original_size': viol['size'],
+                       'minimised_size': viol['size'],
+                       'scenario': scn}, f, indent=1, default=str)
+        return path, None
 
     def test(c):
         _, vs, _ = run_scenario(spec, c)
@@ -304,6 +338,10 @@ def replay(prop, spec, path, print_sigs):
     scn = doc['scenario']
     from . import execu
     execu.gp()
+    for _ in range(int(doc.get('repeat', 1)) - 1):
+        # the witness needs the same scenario executed before in this very
+        # process (the library leaves state behind): judge the last one
+        run_scenario(spec, copy.deepcopy(scn))
     _, vs, st = run_scenario(spec, scn)
     known = {k['signature'] for k in load_known(prop)}
     bad = [v for v in vs if v.sig not in known]
@@ -453,21 +491,44 @@ def main(argv=None):
     lines = []
     replays = []
     for s in sorted(unknown)[:int(os.environ.get('GPSIM_MAX_REPLAYS', 3))]:
-        # (the generator configuration of the job that produced it: a
-        # profile may be registered twice with different configurations)
-        path, err = write_replay(prop, spec, by_sig[s],
-                                 by_sig[s].get('cfg') or {})
-        if path is None:
-            errors.append({'seed': by_sig[s]['seed'], 'trace': err})
-            continue
-        ok, outp = verify_replay(prop, path, s)
-        if not ok:
-            errors.append({'seed': by_sig[s]['seed'],
-                           'trace': 'replay did not reproduce: ' + outp})
-            continue
-        replays.append(path)
-        lines.append(f'VIOLATION property={prop} replay={path}')
-        status = 1
+        # a witness must reproduce from its scenario document alone, in a
+        # fresh interpreter.  A violation observed in a worker may instead
+        # depend on state that an EARLIER scenario left in the process (a
+        # library that corrupts a module-level object): such a candidate does
+        # not replay, so the next smallest ones of the same signature are
+        # tried before giving up
+        def uniq(vs_):
+            got, out_ = set(), []
+            for v_ in sorted(vs_, key=lambda v: (v['size'], v['seed'])):
+                if v_['seed'] not in got:
+                    got.add(v_['seed'])
+                    out_.append(v_)
+            return out_
+        cands = uniq(v for v in viols if v['signature'] == s
+                     and not v.get('repeat'))[:4] + \
+            uniq(v for v in viols if v['signature'] == s
+                 and v.get('repeat'))[:4]
+        tried = []
+        for cand in cands:
+            # (the generator configuration of the job that produced it: a
+            # profile may be registered twice with different configurations)
+            path, err = write_replay(prop, spec, cand, cand.get('cfg') or {})
+            if path is None:
+                tried.append({'seed': cand['seed'], 'trace': err})
+                continue
+            ok, outp = verify_replay(prop, path, s)
+            if not ok:
+                tried.append({'seed': cand['seed'],
+                              'trace': 'replay did not reproduce: ' + outp})
+                continue
+            replays.append(path)
+            lines.append(f'VIOLATION property={prop} replay={path}')
+            status = 1
+            if tried:
+                agg['witnesses_that_needed_earlier_scenarios'] += len(tried)
+            break
+        else:
+            errors.extend(tried[:2])
     if unknown and not replays and not errors:
         errors.append({'seed': None, 'trace': 'violations without replay'})
     for k in known:
